@@ -838,3 +838,150 @@ def _():
         if ast.unparse(kws[k]) != v:
             raise Untranslatable(f"feature_vector {k}")
     return out
+
+
+# ======================================================================================
+# Gen/Lattice.lean  --  base/utils.py, common/gridmatching.py
+# ======================================================================================
+_trcore.GEN_IMPORTS["Lattice"] = ["BlobfinderModel.Model.Scalar"]
+
+
+def _fp(name, text, doc=None):
+    d = f"/-- {doc} -/\n" if doc else ""
+    return f"{d}def {name} : String := {lean_str(text)}\n"
+
+
+def _stmt_texts(fn):
+    return [ast.unparse(s) for s in stmts_of(fn)]
+
+
+@fragment("Lattice", "within_frame")
+def _():
+    fn = find_def(UT, "within_frame")
+    sel = find_assign(fn, "selector")
+    v = sel.value
+    if not (isinstance(v, ast.BinOp) and isinstance(v.op, ast.Mult)):
+        raise Untranslatable("within_frame selector is not a product of two comparisons")
+    out = ""
+    parts = {}
+    for side in (v.left, v.right):
+        if not (isinstance(side, ast.Compare) and len(side.ops) == 1 and ast.unparse(side.left) == "peaks"
+                and isinstance(side.comparators[0], ast.Tuple) and len(side.comparators[0].elts) == 2):
+            raise Untranslatable("within_frame comparison shape")
+        for ax, el in zip("yx", side.comparators[0].elts):
+            env = Env(vars={"r": ("r", RAT), "fy": ("f", RAT), "fx": ("f", RAT), "p": ("p", RAT)})
+            cmp_ = ast.Compare(left=ast.Name(id="p", ctx=ast.Load()), ops=side.ops, comparators=[el])
+            txt, _ = tr(cmp_, env)
+            used = {n.id for n in ast.walk(el) if isinstance(n, ast.Name)}
+            if ("fx" in used and ax == "y") or ("fy" in used and ax == "x"):
+                raise Untranslatable("within_frame: fy/fx used on the wrong axis")
+            parts.setdefault(ax, []).append(txt)
+    if parts["y"] != parts["x"]:
+        raise Untranslatable("within_frame treats the axes differently")
+    out += ("/-- `within_frame` along one axis: coordinate `p`, margin `r`, frame size `f` -/\n"
+            f"def within_axis (p r f : Rat) : Bool := {' && '.join(parts['y'])}\n")
+    ret = [s for s in stmts_of(fn) if isinstance(s, ast.Return)][0]
+    out += _fp("within_reduce_expr", ast.unparse(ret.value))
+    return out
+
+
+@fragment("Lattice", "calc_coords")
+def _():
+    fn = find_def(UT, "calc_coords")
+    out = _fp("calc_coords_body", " ; ".join(_stmt_texts(fn)), "body of `base.utils.calc_coords`")
+    fp = find_def(UT, "frame_peaks")
+    out += _fp("frame_peaks_body", " ; ".join(_stmt_texts(fp)))
+    gi = find_def(GM, "get_indices")
+    out += _fp("get_indices_body", " ; ".join(_stmt_texts(gi)))
+    return out
+
+
+@fragment("Lattice", "regularize")
+def _():
+    fn = find_def(UT, "regularize_indices")
+    chain = [s for s in stmts_of(fn) if isinstance(s, ast.If)]
+    if len(chain) != 1 or len(chain[0].orelse) != 1 or not isinstance(chain[0].orelse[0], ast.If):
+        raise Untranslatable("regularize_indices is not if/elif/else")
+    first, second = chain[0], chain[0].orelse[0]
+    env = Env(subst={"len(s)": ("ndim", INT), "s[0]": ("s0", INT), "s[1]": ("s1", INT)})
+    c1, _ = tr(first.test, env)
+    c2, _ = tr(second.test, env)
+    out = f"def reg_is_mgrid (ndim s0 s1 : Int) : Bool := {c1}\n"
+    out += f"def reg_is_list (ndim s0 s1 : Int) : Bool := {c2}\n"
+    out += _fp("reg_mgrid_expr", ast.unparse(first.body[0]))
+    out += _fp("reg_list_expr", ast.unparse(second.body[0]))
+    if not isinstance(second.orelse[0], ast.Raise):
+        raise Untranslatable("regularize_indices: else is not raise")
+    # Match.calc_coords has its own copy of the layout handling
+    mc = find_def(GM, "Match.calc_coords")
+    mchain = [s for s in stmts_of(mc) if isinstance(s, ast.If) and "len(s)" in ast.unparse(s.test)]
+    if len(mchain) != 1:
+        raise Missing("layout test of Match.calc_coords")
+    m1, m2 = mchain[0], mchain[0].orelse[0]
+    d1, _ = tr(m1.test, env)
+    d2, _ = tr(m2.test, env)
+    out += f"def mc_is_mgrid (ndim s0 s1 : Int) : Bool := {d1}\n"
+    out += f"def mc_is_list (ndim s0 s1 : Int) : Bool := {d2}\n"
+    out += _fp("mc_mgrid_expr", ast.unparse(m1.body[0]))
+    nz = find_assign(mc, "nz")
+    out += _fp("mc_drop_zero_expr", ast.unparse(nz.value))
+    tail = [ast.unparse(s) for s in stmts_of(mc) if s.lineno > mchain[0].end_lineno]
+    out += _fp("mc_tail", " ; ".join(tail))
+    return out
+
+
+@fragment("Lattice", "fastmatch")
+def _():
+    fn = find_def(GM, "Matcher.fastmatch")
+    filt = find_assign(fn, "filt")
+    env = Env(subst={"corr.peak_elevations": ("elev", RAT), "self.min_weight": ("min_weight", RAT)})
+    c, _ = tr(filt.value, env)
+    out = f"def fm_weight_ok (elev min_weight : Rat) : Bool := {c}\n"
+    tries = [s for s in stmts_of(fn) if isinstance(s, ast.Try)]
+    if len(tries) != 1:
+        raise Missing("try block of fastmatch")
+    t = tries[0]
+    ifs = [s for s in t.body if isinstance(s, ast.If)]
+    if len(ifs) != 1:
+        raise Untranslatable("fastmatch: min_match test")
+    env2 = Env(subst={"len(match1)": ("n", INT), "self.min_match": ("min_match", INT)})
+    c2, _ = tr(ifs[0].test, env2)
+    out += f"def fm_enough (n min_match : Int) : Bool := {c2}\n"
+    out += _fp("fm_try_body", " ; ".join(ast.unparse(s) for s in t.body))
+    out += _fp("fm_handlers", " ; ".join(ast.unparse(h.type) + " -> " + " ".join(ast.unparse(s) for s in h.body)
+                                        for h in t.handlers))
+    ma = find_def(GM, "Matcher._match_all")
+    ms = find_assign(ma, "matched_selector")
+    env3 = Env(subst={"self.tolerance": ("tol", RAT)}, vars={"errors": ("err", RAT)})
+    c3, _ = tr(ms.value, env3)
+    out += f"def fm_matched (err tol : Rat) : Bool := {c3}\n"
+    for nm in ("indices", "rounded", "index_diffs", "diffs", "scaled_diffs", "errors", "matched_indices",
+               "new_selector"):
+        out += _fp(f"ma_{nm}", ast.unparse(find_assign(ma, nm).value))
+    inv = find_def(GM, "Match.invalid")
+    out += _fp("invalid_body", " ; ".join(_stmt_texts(inv)))
+    out += _fp("new_selector_body", " ; ".join(_stmt_texts(find_def(GM, "PointSelection.new_selector"))))
+    out += _fp("match_all_tail", ast.unparse([s for s in stmts_of(ma) if isinstance(s, ast.Assign)
+                                             and ast.unparse(s.targets[0]) == "result"][0].value))
+    return out
+
+
+@fragment("Lattice", "optimize")
+def _():
+    w = find_def(GM, "Match.weighted_optimize")
+    o = find_def(GM, "Match.optimize")
+    e = find_def(GM, "Match.error")
+    out = _fp("wopt_body", " ; ".join(_stmt_texts(w)), "body of `Match.weighted_optimize`")
+    out += _fp("opt_body", " ; ".join(_stmt_texts(o)))
+    out += _fp("error_body", " ; ".join(_stmt_texts(e)))
+    am = find_def(GM, "Matcher.affinematch")
+    out += _fp("affinematch_body", " ; ".join(_stmt_texts(am)))
+    return out
+
+
+@fragment("Lattice", "transformation")
+def _():
+    out = ""
+    for nm in ("get_transformation", "do_transformation", "find_center"):
+        out += _fp(f"{nm}_body", " ; ".join(_stmt_texts(find_def(GM, nm))))
+    return out
